@@ -533,6 +533,16 @@ def check_tt(pid, tier, seed):
 CHECKS = {"C15": check_tt, "C09": check_magic, "C20": check_movevalue, "C08": check_hash, "C11": check_fen, "C12": check_san, "C01": check_rules, "C02": check_rules, "C10": check_rules, "C05": check_eval, "C13": check_eval}
 
 
+def _search(fn):
+    def run(pid, tier, seed):
+        import searchchecks
+        getattr(searchchecks, fn)(pid, tier, seed)
+    return run
+
+
+CHECKS.update({"C03": _search("check_c03"), "C04": _search("check_c04"), "C06": _search("check_c06"), "C17": _search("check_c17"), "C19": _search("check_c19")})
+
+
 def main():
     ap = argparse.ArgumentParser()
     ap.add_argument("pid")
